@@ -11,62 +11,75 @@ any list of actions (`runActs`), hence every transformation (`Props/C19/Heap.lea
 import CnfgenModel.Heap.Trans
 namespace Cnfgen
 namespace Heap
+local notation "Addr" => Nat
 
+/-- the new region is closed under "holds the address of", and holds no dangling address -/
 def Closed (b : Nat) (s : Store) : Prop :=
-  ∀ a c, b ≤ a → s[a]? = some c → ∀ x ∈ c.refsOf, b ≤ x
+  ∀ a c, b ≤ a → s[a]? = some c → ∀ x : Nat, x ∈ c.refsOf → b ≤ x ∧ x < s.size
 
 structure Good (s0 s : Store) : Prop where
   size_le : s0.size ≤ s.size
   frame : ∀ a, a < s0.size → s[a]? = s0[a]?
   closed : Closed s0.size s
 
+theorem lt_size_of_getElem? {s : Store} {a : Nat} {c : Cell} (h : s[a]? = some c) : a < s.size := by
+  rcases Nat.lt_or_ge a s.size with h' | h'
+  · exact h'
+  · simp [Array.getElem?_eq_none h'] at h
+
 theorem Good.refl (s : Store) : Good s s := by
   refine ⟨Nat.le_refl _, fun _ _ => rfl, ?_⟩
   intro a c ha hc
-  have : a < s.size := by
-    rcases Nat.lt_or_ge a s.size with h | h
-    · exact h
-    · simp [Array.getElem?_eq_none h] at hc
-  omega
+  have := lt_size_of_getElem? hc
+  exact absurd this (by omega)
 
-theorem good_alloc {s0 s : Store} {c : Cell} (h : Good s0 s) (hc : ∀ x ∈ c.refsOf, s0.size ≤ x) :
-    Good s0 (alloc s c).1 := by
+@[simp] theorem size_alloc (s : Store) (c : Cell) : (alloc s c).1.size = s.size + 1 := by simp [alloc]
+@[simp] theorem addr_alloc (s : Store) (c : Cell) : (alloc s c).2 = s.size := rfl
+@[simp] theorem size_write (s : Store) (a : Addr) (c : Cell) : (write s a c).size = s.size := by simp [write]
+@[simp] theorem size_appendRef (s : Store) (l x : Addr) : (appendRef s l x).size = s.size := by
+  unfold appendRef; split <;> simp
+
+theorem good_alloc {s0 s : Store} {c : Cell} (h : Good s0 s)
+    (hc : ∀ x : Nat, x ∈ c.refsOf → s0.size ≤ x ∧ x < s.size) : Good s0 (alloc s c).1 := by
   have hs := h.size_le
-  refine ⟨by simp [alloc]; omega, ?_, ?_⟩
+  refine ⟨by simp; omega, ?_, ?_⟩
   · intro a ha
     simp only [alloc]
     rw [Array.getElem?_push]
     split
     · omega
     · exact h.frame a ha
-  · intro a c' ha hc'
+  · intro a c' ha hc' x hx
     simp only [alloc] at hc'
     rw [Array.getElem?_push] at hc'
+    simp only [size_alloc]
     split at hc'
-    · cases hc'; exact hc
-    · exact h.closed a c' ha hc'
-
-theorem alloc_addr_ge {s0 s : Store} {c : Cell} (h : Good s0 s) : s0.size ≤ (alloc s c).2 := h.size_le
+    · cases hc'; have := hc x hx; omega
+    · have := h.closed a c' ha hc' x hx; omega
 
 theorem good_write {s0 s : Store} {a : Addr} {c : Cell} (h : Good s0 s) (ha : s0.size ≤ a)
-    (hc : ∀ x ∈ c.refsOf, s0.size ≤ x) : Good s0 (write s a c) := by
-  refine ⟨by simp [write]; exact h.size_le, ?_, ?_⟩
+    (hc : ∀ x : Nat, x ∈ c.refsOf → s0.size ≤ x ∧ x < s.size) : Good s0 (write s a c) := by
+  refine ⟨by simp; exact h.size_le, ?_, ?_⟩
   · intro a' ha'
     simp only [write]
     rw [Array.getElem?_setIfInBounds_ne (by omega)]
     exact h.frame a' ha'
-  · intro a' c' ha' hc'
+  · intro a' c' ha' hc' x hx
     simp only [write] at hc'
     rw [Array.getElem?_setIfInBounds] at hc'
+    simp only [size_write]
     split at hc'
     · split at hc'
-      · cases hc'; exact hc
+      · cases hc'; exact hc x hx
       · cases hc'
-    · exact h.closed a' c' ha' hc'
+    · exact h.closed a' c' ha' hc' x hx
+
+/-- an address of the new region that is in use -/
+def InR (s0 s : Store) (x : Nat) : Prop := s0.size ≤ x ∧ x < s.size
 
 /-- the slots of a formula object of the new region point into the new region -/
 theorem good_slots {s0 s : Store} {r : Addr} {o : Obj} (h : Good s0 s) (hr : s0.size ≤ r)
-    (ho : readCNF s r = some o) : s0.size ≤ o.cl ∧ s0.size ≤ o.hd ∧ s0.size ≤ o.gr := by
+    (ho : readCNF s r = some o) : InR s0 s o.cl ∧ InR s0 s o.hd ∧ InR s0 s o.gr := by
   unfold readCNF at ho
   split at ho
   · rename_i cl hd gr nv heq
@@ -76,16 +89,7 @@ theorem good_slots {s0 s : Store} {r : Addr} {o : Obj} (h : Good s0 s) (hr : s0.
     exact this
   · cases ho
 
-theorem good_refs {s0 s : Store} {l : Addr} {as : List Addr} (h : Good s0 s) (hl : s0.size ≤ l)
-    (ho : readRefs s l = some as) : ∀ x ∈ as, s0.size ≤ x := by
-  unfold readRefs at ho
-  split at ho
-  · rename_i as' heq
-    cases ho
-    exact h.closed l _ hl heq
-  · cases ho
-
-theorem good_appendRef {s0 s : Store} {l x : Addr} (h : Good s0 s) (hl : s0.size ≤ l) (hx : s0.size ≤ x) :
+theorem good_appendRef {s0 s : Store} {l x : Addr} (h : Good s0 s) (hl : s0.size ≤ l) (hx : InR s0 s x) :
     Good s0 (appendRef s l x) := by
   unfold appendRef
   split
@@ -108,17 +112,18 @@ theorem good_addClauseVals {s0 s : Store} {r : Addr} (xs : List Int) (check : Bo
   · rename_i o ho
     obtain ⟨hcl, hhd, hgr⟩ := good_slots h hr ho
     have h1 : Good s0 (alloc s (.ints xs)).1 := good_alloc h (by simp [Cell.refsOf])
-    have hd : s0.size ≤ (alloc s (.ints xs)).2 := alloc_addr_ge h
+    have hs := h.size_le
+    unfold InR at hcl hhd hgr
     simp only []
     split
-    · exact good_appendRef h1 hcl hd
+    · exact good_appendRef h1 hcl.1 (by simp [InR]; omega)
     · split
       · split
         · exact h1
-        · apply good_appendRef _ hcl hd
+        · apply good_appendRef _ hcl.1 (by simp [InR]; omega)
           apply good_write h1 hr
-          simp [Cell.refsOf]; exact ⟨hcl, hhd, hgr⟩
-      · exact good_appendRef h1 hcl hd
+          simp [Cell.refsOf]; omega
+      · exact good_appendRef h1 hcl.1 (by simp [InR]; omega)
 
 theorem good_addAllVals {s0 : Store} {r : Addr} (check : Bool) (hr : s0.size ≤ r) :
     ∀ (cs : List (List Int)) (s : Store), Good s0 s → Good s0 (addAllVals s r check cs).1
@@ -153,7 +158,7 @@ theorem good_newGroup {s0 s : Store} {r : Addr} (spec : Vars.GroupSpec) (h : Goo
     · split
       · exact h
       · apply good_write _ hr (by simp [Cell.refsOf]; exact ⟨hcl, hhd, hgr⟩)
-        exact good_write h hgr (by simp [Cell.refsOf])
+        exact good_write h hgr.1 (by simp [Cell.refsOf])
 
 theorem good_hdrSet {s0 s : Store} {r : Addr} (k v : String) (h : Good s0 s) (hr : s0.size ≤ r) :
     Good s0 (hdrSet s r k v).1 := by
@@ -164,7 +169,7 @@ theorem good_hdrSet {s0 s : Store} {r : Addr} (k v : String) (h : Good s0 s) (hr
     obtain ⟨hcl, hhd, hgr⟩ := good_slots h hr ho
     split
     · exact h
-    · exact good_write h hhd (by simp [Cell.refsOf])
+    · exact good_write h hhd.1 (by simp [Cell.refsOf])
 
 theorem good_describe {s0 s : Store} {r : Addr} (text : String) (h : Good s0 s) (hr : s0.size ≤ r) :
     Good s0 (describe s r text).1 := by
@@ -175,7 +180,7 @@ theorem good_describe {s0 s : Store} {r : Addr} (text : String) (h : Good s0 s) 
     obtain ⟨hcl, hhd, hgr⟩ := good_slots h hr ho
     split
     · exact h
-    · exact good_write h hhd (by simp [Cell.refsOf])
+    · exact good_write h hhd.1 (by simp [Cell.refsOf])
 
 /-- `newF.header = copy(F.header)`: whatever `src` is (an OLD formula), only `r` and a new cell are written -/
 theorem good_copyHeader {s0 s : Store} {r : Addr} (src : Addr) (h : Good s0 s) (hr : s0.size ≤ r) :
@@ -188,9 +193,10 @@ theorem good_copyHeader {s0 s : Store} {r : Addr} (src : Addr) (h : Good s0 s) (
     · exact h
     · rename_i es hes
       have h1 : Good s0 (alloc s (.dict es)).1 := good_alloc h (by simp [Cell.refsOf])
-      have hd : s0.size ≤ (alloc s (.dict es)).2 := alloc_addr_ge h
+      have hs := h.size_le
+      unfold InR at hcl hhd hgr
       apply good_write h1 hr
-      simp [Cell.refsOf]; exact ⟨hcl, hd, hgr⟩
+      simp [Cell.refsOf]; omega
   · exact h
 
 theorem good_addLinear {s0 s : Store} {r : Addr} (lits : List Int) (op : Op) (k : Int) (h : Good s0 s)
@@ -206,7 +212,6 @@ theorem good_addLinear {s0 s : Store} {r : Addr} (lits : List Int) (op : Op) (k 
       · exact h
       · apply good_addAllVals false hr
         apply good_write h hr; simp [Cell.refsOf]; exact ⟨hcl, hhd, hgr⟩
-
 theorem good_addLinearAll {s0 : Store} {r : Addr} (op : Op) (k : Int) (hr : s0.size ≤ r) :
     ∀ (ls : List (List Int)) (s : Store), Good s0 s → Good s0 (addLinearAll s r op k ls).1
   | [], s, h => by simpa [addLinearAll] using h
@@ -268,7 +273,7 @@ theorem good_runAct {s0 s : Store} {r : Addr} (a : Act) (h : Good s0 s) (hr : s0
       obtain ⟨hcl, hhd, hgr⟩ := good_slots h hr ho
       split
       · exact h
-      · exact good_write h hhd (by simp [Cell.refsOf])
+      · exact good_write h hhd.1 (by simp [Cell.refsOf])
   | updVar n => exact good_updVar n h hr
   | newGroup spec => exact good_newGroup spec h hr
   | liftSelectors k =>
@@ -301,25 +306,13 @@ theorem good_newCNF {s0 s : Store} (cfg : Cfg) (d : Option String) (h : Good s0 
     Good s0 (newCNF cfg s d).1 ∧ s0.size ≤ (newCNF cfg s d).2 := by
   unfold newCNF
   simp only []
+  have hs := h.size_le
   have h1 := good_alloc (c := .dict (("description", d.getD "Formula in CNF") :: cfg.hdr0)) h (by simp [Cell.refsOf])
-  have a1 : s0.size ≤ (alloc s (.dict (("description", d.getD "Formula in CNF") :: cfg.hdr0))).2 := alloc_addr_ge h
   have h2 := good_alloc (c := .refs []) h1 (by simp [Cell.refsOf])
-  have a2 := alloc_addr_ge (c := .refs []) h1
   have h3 := good_alloc (c := .groups []) h2 (by simp [Cell.refsOf])
-  have a3 := alloc_addr_ge (c := .groups []) h2
-  refine ⟨good_alloc h3 ?_, alloc_addr_ge h3⟩
+  refine ⟨good_alloc h3 ?_, by simp; omega⟩
   simp [Cell.refsOf]
-  exact ⟨a2, a1, a3⟩
-
-theorem good_build {s : Store} (cfg : Cfg) (acts : List Act) :
-    Good s (build cfg s acts).1 ∧ ∀ r, (build cfg s acts).2 = .ok r → s.size ≤ r := by
-  unfold build
-  obtain ⟨h1, hr⟩ := good_newCNF cfg none (Good.refl s)
-  have h2 := good_runActs hr acts _ h1
-  simp only []
-  split
-  · rename_i s2 e heq; rw [heq] at h2; exact ⟨h2, by intro r hr'; cases hr'⟩
-  · rename_i s2 u heq; rw [heq] at h2; exact ⟨h2, by intro r hr'; cases hr'; exact hr⟩
+  omega
 
 end Heap
 end Cnfgen
